@@ -1,5 +1,6 @@
 import PicoVerif.Model.P8Png
 import PicoVerif.Props.C05
+import PicoVerif.Lemmas.C04
 /-! C04 — `.p8.png` write/read round trip preserves cart and label picture. -/
 namespace Pico.C04
 open Pico.P8Png Pico.P8File Pico.Compress
@@ -29,7 +30,8 @@ def codeFits (code : Bytes) : Prop :=
 /-- **C04.refuses**: a cart whose code does not fit is refused with an error, never written. -/
 theorem refuses (lbl : List (List UInt8)) (c : Cart) (h : ¬ codeFits c.code) :
     ∃ e, toPixels lbl c = .error e := by
-  sorry
+  obtain ⟨e, he⟩ := getBytes_error c.code h
+  exact ⟨e, by simp [toPixels, he, bind, Except.bind]⟩
 
 /-- **C04.code_area_compressed**: code stored compressed reads back exactly (CR -> space), for every
 version ≥ 1, under C05's guard. -/
@@ -37,7 +39,14 @@ theorem code_area_compressed (code : Bytes) (v : Nat) (hv : v ≠ 0) (hc : store
     (hfit : codeFits code) (hg : C05.Guard code) :
     ∃ area sz, getBytesFromCode code = .ok area ∧ area.length = codeAreaLen ∧
       getCodeFromBytes area v = .ok (code.length, replaceCR code, some sz) := by
-  sorry
+  have hc' : (compress code).length < code.length := hc
+  have ⟨h1, h2⟩ : code.length < 65536 ∧ 8 + (compress code).length ≤ codeAreaLen := by
+    simpa [codeFits, hc'] using hfit
+  obtain ⟨sz, hsz⟩ := getCode_compressed code
+    (List.replicate (codeAreaLen - (8 + (compress code).length)) 0) v hv hg
+  refine ⟨_, sz, getBytes_compressed code hc' h1 h2, ?_, hsz⟩
+  simp only [List.length_append, header_length, List.length_replicate]
+  omega
 
 /-- **C04.code_area_raw**: code stored raw reads back with a newline appended (CR -> space), provided
 it contains no NUL byte (the raw form is NUL-terminated) and is not exactly the three bytes `:c:` (which, followed
@@ -46,13 +55,17 @@ theorem code_area_raw (code : Bytes) (v : Nat) (hc : ¬ storedCompressed code) (
     (hnul : (0 : UInt8) ∉ code) (hnc : code ≠ [0x3a, 0x63, 0x3a]) :
     ∃ area, getBytesFromCode code = .ok area ∧ area.length = codeAreaLen ∧
       getCodeFromBytes area v = .ok (code.length, replaceCR (code ++ [10]), none) := by
-  sorry
+  have hc' : ¬ (compress code).length < code.length := hc
+  have h1 : code.length ≤ codeAreaLen := by simpa [codeFits, hc'] using hfit
+  refine ⟨_, getBytes_raw code hc' h1, ?_, getCode_raw code _ v (by omega) hnul hnc⟩
+  simp only [List.length_append, List.length_replicate]
+  omega
 
 /-- **C04.stego_roundtrip**: the hidden bytes read back from the written rows. -/
 theorem stego_roundtrip (lbl : List (List UInt8)) (w : Nat) (pico : Bytes) (h : WFLabel lbl w)
     (hp : pico.length ≤ w * lbl.length) :
     (decRows (encRows lbl pico)).take pico.length = pico := by
-  sorry
+  exact (List.prefix_iff_eq_take.mp (stego_prefix lbl w pico h.rows hp)).symm
 
 /-- **C04.label_bits**: the written image has the label's shape and equals it in the upper six bits of
 every channel of every pixel. -/
@@ -61,7 +74,12 @@ theorem label_bits (lbl : List (List UInt8)) (w : Nat) (pico : Bytes) (h : WFLab
     ∀ i, i < lbl.length → ∀ j, j < 4 * w →
       ((encRows lbl pico).getD i []).length = 4 * w ∧
       ((encRows lbl pico).getD i []).getD j 0 >>> (2 : UInt8) = (lbl.getD i []).getD j 0 >>> (2 : UInt8) := by
-  sorry
+  refine ⟨encRows_length lbl pico, fun i hi j _ => ?_⟩
+  obtain ⟨vs, hvs⟩ := encRows_getD lbl pico i hi
+  have hmem : lbl.getD i [] ∈ lbl := by
+    rw [List.getD_eq_getElem?_getD, List.getElem?_eq_getElem hi]; exact List.getElem_mem hi
+  rw [hvs]
+  exact ⟨by rw [encRow_length, h.rows _ hmem], encRow_shr _ vs j⟩
 
 /-- the cart as the reader returns it -/
 def normPng (c : Cart) : Cart :=
@@ -75,6 +93,16 @@ theorem fits_roundtrip (lbl : List (List UInt8)) (w : Nat) (c : Cart) (hl : WFLa
     (hcomp : storedCompressed c.code → c.version ≠ 0 ∧ C05.Guard c.code)
     (hraw : ¬ storedCompressed c.code → (0 : UInt8) ∉ c.code ∧ c.code ≠ [0x3a, 0x63, 0x3a]) :
     ∃ rows, toPixels lbl c = .ok rows ∧ fromPixels rows = .ok (normPng c) := by
-  sorry
+  have hfrom := fun area hb ha n code sz => pixels_roundtrip lbl w c area hl.rows hl.room
+    hr.gfx hr.gff hr.map hr.sfx hr.music hr.version hb ha n code sz
+  by_cases hc : storedCompressed c.code
+  · obtain ⟨hv, hg⟩ := hcomp hc
+    obtain ⟨area, sz, hb, ha, hcode⟩ := code_area_compressed c.code c.version hv hc hfit hg
+    have hc' : (compress c.code).length < c.code.length := hc
+    simpa [normPng, hc'] using hfrom area hb ha _ _ _ hcode
+  · obtain ⟨hnul, hnc⟩ := hraw hc
+    obtain ⟨area, hb, ha, hcode⟩ := code_area_raw c.code c.version hc hfit hnul hnc
+    have hc' : ¬ (compress c.code).length < c.code.length := hc
+    simpa [normPng, hc'] using hfrom area hb ha _ _ _ hcode
 
 end Pico.C04
